@@ -1,6 +1,8 @@
 (* C04 -- the stack is a linearizable transactional store.  Statements only.
    [trace_of] = the observable trace of the protocol model (Model/StackProto.v)
-   for any initial directory, any scripts, any schedule (interleaving at the
+   for any initial directory, any handles (each configured with either hash
+   type, whatever the hash type of the directory: [scripts] pairs a handle's
+   hash type with its script), any scripts, any schedule (interleaving at the
    granularity of single file-system operations, crashes included), any table
    sizes (auto-compaction decisions) and any bound on reload retries.
    [c04_ok] (Model/StackTrace.v): after EVERY file-system operation the
@@ -14,7 +16,7 @@ From Coq Require Import List NArith Arith Bool.
 From RT Require Import Model.StackTrace Model.StackProto Proofs.StackInvProofs.
 Import ListNotations.
 
-Theorem C04_linearizable : forall size_oracle attempts tabs scripts sched,
+Theorem C04_linearizable : forall size_oracle attempts tabs (scripts : list (bool * list apiop)) sched,
   init_ok tabs ->
   c04_ok (trace_of size_oracle attempts tabs scripts sched) = true.
 Proof. exact c04_all_traces. Qed.
@@ -25,8 +27,8 @@ Print Assumptions C04_linearizable.
    compaction then committing) run through the model *)
 Local Open Scope N_scope.
 Definition c04_tabs : list (nat * tfile) :=
-  [(0%nat, {| tf_min := 1; tf_max := 1; tf_txs := [100%nat]; tf_size := 100 |});
-   (1%nat, {| tf_min := 2; tf_max := 2; tf_txs := [101%nat]; tf_size := 100 |})].
+  [(0%nat, {| tf_min := 1; tf_max := 1; tf_txs := [100%nat]; tf_size := 100; tf_hash := false |});
+   (1%nat, {| tf_min := 2; tf_max := 2; tf_txs := [101%nat]; tf_size := 100; tf_hash := false |})].
 Definition c04_sched : list sched_item :=
   (* h0: open, then CompactAll up to the point where it has released the list lock and made its temp file *)
   map (fun _ => Step 0 None) (seq 0 10) ++
@@ -35,7 +37,7 @@ Definition c04_sched : list sched_item :=
   (* h0 finishes its compaction *)
   map (fun _ => Step 0 None) (seq 0 20).
 Example C04_ex :
-  let tr := trace_of (fun _ => 100) 50 c04_tabs [[AOpen; ACompactAll]; [AOpen; AAdd 7 false; ARead]] c04_sched in
+  let tr := trace_of (fun _ => 100) 50 c04_tabs [(false, [AOpen; ACompactAll]); (false, [AOpen; AAdd 7 false; ARead])] c04_sched in
   c04_ok tr = true /\
   existsb (fun e => match e with ERet 1 ARead (RView txs _) => list_nat_eqb txs [100; 101; 7]%nat | _ => false end) tr = true /\
   existsb (fun e => match e with ERet 0 ACompactAll ROk => true | _ => false end) tr = true.
@@ -49,8 +51,8 @@ Example C04_ex_multi :
   let sched := map (fun _ => Step 0 None) (seq 0 40) ++ map (fun _ => Step 1 None) (seq 0 40) ++
                map (fun _ => Step 0 None) (seq 0 40) in
   let tr := trace_of (fun _ => 100) 50 c04_tabs
-              [[AOpen; AAddMulti 7 false; ARead; ACompact 1 3; ARead];
-               [AOpen; AAddMulti 8 true; AAddMulti 9 false; AClean; ARead]] sched in
+              [(false, [AOpen; AAddMulti 7 false; ARead; ACompact 1 3; ARead]);
+               (false, [AOpen; AAddMulti 8 true; AAddMulti 9 false; AClean; ARead])] sched in
   c04_ok tr = true /\
   existsb (fun e => match e with ERet 0 (AAddMulti 7 false) ROk => true | _ => false end) tr = true /\
   existsb (fun e => match e with ERet 1 (AAddMulti 8 true) RLockFailure => true | _ => false end) tr = true /\
